@@ -3,10 +3,12 @@ package main
 import (
 	"bytes"
 	"fmt"
+	"io"
 	"reflect"
 	"strconv"
 	"strings"
 	"sync"
+	"time"
 
 	"github.com/CloudyKit/jet/v6"
 
@@ -223,6 +225,76 @@ func init() {
 		wg.Wait()
 		return sx.L(sx.A("done")), oracle
 	})
+	// (firstload seed goroutines): templates that refer to each other - also in a cycle, which is an error - are
+	// asked for, for the FIRST time, by several goroutines at once and from different ends; a loader wrapper makes
+	// the first readers of two files meet (a legal schedule, pinned).  Every call returns, and returns what the
+	// same call returns on a fresh Set when run alone (the rendered output, or "an error").
+	h.RegisterImpl("firstload", func(cmd, _ *sx.Sexp) (*sx.Sexp, string) {
+		seed := uint64(atoi(cmd.Xs[1].A))
+		ng := atoi(cmd.Xs[2].A)
+		files := map[string]string{
+			"/cyA.jet": `{{import "/cyB.jet"}}A{{yield bb()}}{{block ba()}}a{{end}}`,
+			"/cyB.jet": `{{import "/cyA.jet"}}B{{yield ba()}}{{block bb()}}b{{end}}`,
+			"/cx1.jet": `{{extends "/cx2.jet"}}`, "/cx2.jet": `{{extends "/cx3.jet"}}`, "/cx3.jet": `{{extends "/cx1.jet"}}`,
+			"/dl.jet": `{{block shared()}}S{{end}}`, "/d1.jet": `{{import "/dl.jet"}}1{{yield shared()}}`, "/d2.jet": `{{import "/dl.jet"}}2{{yield shared()}}{{include "/d1.jet"}}`,
+			"/top.jet": `{{include "/d1.jet"}}{{include "/d2.jet"}}{{try}}{{include "/cyA.jet"}}{{catch}}cycle{{end}}`,
+		}
+		names := []string{"/cyA.jet", "/cyB.jet", "/cx1.jet", "/cx2.jet", "/cx3.jet", "/d1.jet", "/d2.jet", "/top.jet", "/dl.jet"}
+		result := func(set *jet.Set, n string) string {
+			t, err := set.GetTemplate(n)
+			if err != nil {
+				return "error"
+			}
+			var buf bytes.Buffer
+			if err := t.Execute(&buf, nil, nil); err != nil {
+				return "exec-error " + buf.String()
+			}
+			return "ok " + buf.String()
+		}
+		alone := map[string]string{}
+		for _, n := range names {
+			set, _ := newRaceSet(files, false)
+			alone[n] = result(set, n)
+		}
+		r := h.NewRand(seed)
+		_, ld := newRaceSet(files, false)
+		meet := &meetLoader{Loader: ld, want: map[string]bool{}, arrived: make(chan struct{})}
+		pair := [][2]string{{"/cyA.jet", "/cyB.jet"}, {"/cx1.jet", "/cx3.jet"}, {"/d1.jet", "/dl.jet"}, {"/cx2.jet", "/cx1.jet"}}[r.Intn(4)]
+		meet.want[pair[0]], meet.want[pair[1]] = true, true
+		set := jet.NewSet(meet)
+		type res struct{ gi int; n, got string }
+		out := make(chan res, ng*2)
+		for gi := 0; gi < ng; gi++ {
+			n := names[r.Intn(len(names))]
+			if gi < 2 {
+				n = pair[gi] // two goroutines enter from the two ends
+			}
+			go func(gi int, n string) {
+				defer func() {
+					if e := recover(); e != nil {
+						out <- res{gi, n, fmt.Sprintf("panic %v", e)}
+					}
+				}()
+				out <- res{gi, n, result(set, n)}
+			}(gi, n)
+		}
+		oracle := ""
+		deadline := time.After(4 * time.Second)
+		for k := 0; k < ng; k++ {
+			select {
+			case x := <-out:
+				if x.got != alone[x.n] && oracle == "" {
+					oracle = fmt.Sprintf("concurrent first load of %s gave %q, alone it gives %q (first readers of %s and %s met)", x.n, clipS(x.got), clipS(alone[x.n]), pair[0], pair[1])
+				}
+			case <-deadline:
+				if oracle == "" {
+					oracle = fmt.Sprintf("%d of %d concurrent first loads did not return within 4s (first readers of %s and %s met): deadlock", ng-k, ng, pair[0], pair[1])
+				}
+				return sx.L(sx.A("done")), oracle
+			}
+		}
+		return sx.L(sx.A("done")), oracle
+	})
 	h.RegisterProp(&h.Prop{ID: "C11", Gen: func(r *h.Rand, tier string) []h.Case {
 		n := 40
 		if tier == "search" {
@@ -236,6 +308,39 @@ func init() {
 				Tags: []string{map[bool]string{true: "dev-mode", false: "cached"}[i%2 == 0]},
 				Cmd: sx.L(sx.A("concurrent"), sx.I(int64(r.Intn(1<<30))), sx.I(int64(4+r.Intn(6))), sx.I(int64(40+r.Intn(80))), sx.Bool(i%2 == 0))})
 		}
+		for i := 0; i < n/4; i++ {
+			cs = append(cs, h.Case{Stream: "firstload", NoModel: true, NonTrivial: true, Tags: []string{"first-load"},
+				Cmd: sx.L(sx.A("firstload"), sx.I(int64(r.Intn(1<<30))), sx.I(int64(2+r.Intn(5))))})
+		}
 		return cs
 	}})
+}
+
+// meetLoader makes the first readers of two files wait for each other (for at most 300ms)
+type meetLoader struct {
+	jet.Loader
+	mu      sync.Mutex
+	want    map[string]bool
+	seen    int
+	arrived chan struct{}
+}
+
+func (m *meetLoader) Open(name string) (io.ReadCloser, error) {
+	m.mu.Lock()
+	first := m.want[name]
+	if first {
+		delete(m.want, name)
+		m.seen++
+		if m.seen == 2 {
+			close(m.arrived)
+		}
+	}
+	m.mu.Unlock()
+	if first {
+		select {
+		case <-m.arrived:
+		case <-time.After(300 * time.Millisecond):
+		}
+	}
+	return m.Loader.Open(name)
 }
